@@ -138,6 +138,44 @@ func cmdCheck(args []string) int {
 			fmt.Printf("   undecided: %s\n", u)
 		}
 	}
+	// ---- translator self-test: the engine's concrete trace must equal the native build's trace ----
+	selfOK, selfN := 0, 0
+	var selfUndecided []string
+	for _, r := range results {
+		if !r.Job.Selftest {
+			continue
+		}
+		selfN++
+		if r.Paths != 1 || len(r.Violations) > 0 {
+			selfUndecided = append(selfUndecided, fmt.Sprintf("%s: self-test scenario is not a single clean concrete path (paths=%d violations=%d)", r.Job.Name, r.Paths, len(r.Violations)))
+			continue
+		}
+		nat, err := nativeTrace(r.Job)
+		if err != "" {
+			selfUndecided = append(selfUndecided, fmt.Sprintf("%s: native self-test run failed: %s", r.Job.Name, err))
+			continue
+		}
+		if strings.Join(nat, "\n") != strings.Join(r.Trace, "\n") {
+			d := ""
+			for i := 0; i < len(nat) || i < len(r.Trace); i++ {
+				a, b := "<none>", "<none>"
+				if i < len(nat) {
+					a = nat[i]
+				}
+				if i < len(r.Trace) {
+					b = r.Trace[i]
+				}
+				if a != b {
+					d = fmt.Sprintf("first difference at %d: native %s, engine %s", i, a, b)
+					break
+				}
+			}
+			selfUndecided = append(selfUndecided, fmt.Sprintf("%s: TRANSLATOR MISMATCH (%d native vs %d engine trace entries; %s)", r.Job.Name, len(nat), len(r.Trace), d))
+			continue
+		}
+		selfOK++
+		fmt.Printf("selftest %-38s engine trace == native trace (%d values)\n", r.Job.Name, len(nat))
+	}
 	// ---- triage violations: canaries, known findings, native replay ----
 	known := loadKnown()
 	exit := 0
@@ -190,6 +228,7 @@ func cmdCheck(args []string) int {
 			items = append(items, item{r, v, false})
 		}
 	}
+	undecided = append(undecided, selfUndecided...)
 	rr := map[*Violation]replayRes{}
 	if !*noReplay {
 		var vs []*Violation
@@ -246,8 +285,8 @@ func cmdCheck(args []string) int {
 	if !*keep {
 		os.RemoveAll(queryDir)
 	}
-	writeEvidence(id, *tier, seed, results, confirmed, undecided, time.Since(t0), replays, map[string]interface{}{
-		"load_s": loadT.Seconds(), "canaries": canaries, "canaries_confirmed_natively": canaryOK, "solver_diff_queries": diffN,
+	writeEvidence(id, *tier, seed, results, confirmed, undecided, time.Since(t0), replays+selfOK, map[string]interface{}{
+		"load_s": loadT.Seconds(), "translator_selftests": selfN, "translator_selftests_identical": selfOK, "canaries": canaries, "canaries_confirmed_natively": canaryOK, "solver_diff_queries": diffN,
 		"known_findings_hit": uniq(knownLines),
 	})
 	if exit == 1 {
@@ -399,6 +438,39 @@ func nativeReplay(v *Violation) (string, bool) {
 		return line, strings.HasPrefix(line, "ZZ-REPLAY-HANG")
 	}
 	return line, false
+}
+
+// nativeTrace runs a self-test scenario in the native test binary and returns its vTrace lines.
+func nativeTrace(job *Job) ([]string, string) {
+	bin, berr := ensureTestBin(job.Pkg)
+	if bin == "" {
+		return nil, berr
+	}
+	dir := filepath.Join(scratchDir(), fmt.Sprintf("selftest%d", time.Now().UnixNano()))
+	os.MkdirAll(dir, 0o755)
+	defer os.RemoveAll(dir)
+	rb, _ := json.Marshal(map[string]interface{}{"func": job.Func, "params": job.Params, "nondets": []int{}})
+	rp := filepath.Join(dir, "replay.json")
+	os.WriteFile(rp, rb, 0o644)
+	rel := strings.TrimPrefix(strings.TrimPrefix(job.Pkg, repoModule), "/")
+	cmd := exec.Command(bin, "-test.run", "^TestZZReplay$", "-test.v", "-test.timeout", "120s")
+	cmd.Dir = filepath.Join(repoDir, rel)
+	cmd.Env = append(goEnv(), "VERIF_REPLAY="+rp)
+	out, _ := cmd.CombinedOutput()
+	var tr []string
+	completed := false
+	for _, l := range strings.Split(string(out), "\n") {
+		if strings.HasPrefix(l, "ZZ-TRACE ") {
+			tr = append(tr, strings.TrimPrefix(l, "ZZ-TRACE "))
+		}
+		if strings.HasPrefix(l, "ZZ-REPLAY-COMPLETED") {
+			completed = true
+		}
+	}
+	if !completed {
+		return nil, firstLine(string(out))
+	}
+	return tr, ""
 }
 
 type replayRes struct {
